@@ -18,6 +18,23 @@ CHECKS = {
             "trusted: hmmref.py (two evaluators cross-checked on every small case); decisions within 1e-9 of a cut-off are "
             "skipped; open finding F1 excluded by construction on the in-memory map and counted",
             "DESIGN.md §2 C01"),
+    "C15": ("property-based testing (Hypothesis), differential oracle (lat/lon vs locally projected planar case)",
+            "Street-scale planar cases (edges >= 10 m, noise >= 5 m) are matched as they are and placed at a generated origin "
+            "(|lat| <= 60) on a lat/lon map with the same parameters in metres: same index, probability within 1e-2 relative + "
+            "1e-3 absolute (measured use of the tolerance is reported). Exploration.",
+            "trusted: local equirectangular placement (geomsph.local_to_latlon); cases adjacent to a discontinuity of the model "
+            "in the relative position (edge-end rule of node mode, going-back decision) are skipped and counted",
+            "DESIGN.md §2 C15"),
+    "C16": ("property-based testing (Hypothesis), metamorphic oracle (relabel / reorder / axis swap / 2^k scaling / translation)",
+            "The transformed case must give the same index and probability (1e-9; translation 1e-6) and the renamed path unless "
+            "probabilities tie; scalings over 2^-30..2^30 of coordinates and all distance parameters. Exploration.",
+            "trusted: the transformations themselves (exact in floating point for 2^k; translation offsets exactly representable)",
+            "DESIGN.md §2 C16"),
+    "C19": ("property-based testing (Hypothesis), differential oracle (logger at ERROR vs DEBUG, NullHandler / StreamHandler)",
+            "Single calls and histories are run at both log levels: returned states (incl. their type), index, path keys and every "
+            "probability on the path must be identical. Exploration.",
+            "trusted: logging level and handlers are restored after every case",
+            "DESIGN.md §2 C19"),
     "C17": ("property-based testing (Hypothesis), oracle = totality predicate + metamorphic pairs-vs-triples relation",
             "Generated maps incl. duplicate locations / zero-length edges, traces exactly on nodes and roads, repeats, "
             "outliers, extreme noise values, both metrics: match() must return a (list, int) pair without raising and the "
@@ -25,6 +42,65 @@ CHECKS = {
             "trusted: the generators only build finite maps whose neighbour labels are nodes (dangling labels are outside "
             "the API's notion of a map)",
             "DESIGN.md §2 C17"),
+    "C02": ("property-based testing (Hypothesis), oracle = independent replay of the documented model along the returned path; "
+            "operation histories as data",
+            "Every entry of the returned best path (log-probability, observation distance, length, travelled distances, matched "
+            "position) is recomputed by an independently written model from the map, the trace and the configuration, after single "
+            "calls and after generated match/extend/widen/rematch histories, for all families incl. non-emitting runs. Exploration.",
+            "trusted: hmmref.py + geom2d.py; for non-emitting edge states any valid witness pair is accepted; 1e-8 relative",
+            "DESIGN.md §2 C02"),
+    "C03": ("property-based testing (Hypothesis), oracle = validity predicate over (states, index, best path, lattice) + "
+            "independent start-candidate scan",
+            "Alignment of the best path with the observations, the state list (unique on/off), the truthfulness of the returned "
+            "index against the lattice, and 'empty iff no admissible start' against an independent full scan. Exploration.",
+            "trusted: hmmref.py start scan; trailing non-emitting run after an early stop accepted (documented); F1 excluded from "
+            "the empty-iff clause only",
+            "DESIGN.md §2 C03"),
+    "C04": ("property-based testing (Hypothesis), oracle = validity predicate against the generating adjacency model; histories",
+            "Every state of the best path must be a node / directed edge of the generating model and every consecutive pair a move "
+            "the map offers (incl. linked parallel edges); the nodes-only view must be computable and pairwise adjacent; checked "
+            "after every operation of generated histories. Exploration.",
+            "trusted: the adjacency model that generated the map (never the map's own answers)",
+            "DESIGN.md §2 C04"),
+    "C05": ("property-based testing (Hypothesis), oracle = replay under the reference model + spherical reference for lat/lon",
+            "Reported and true distances against max_dist / max_dist_init, reported and model normalised probability against "
+            "min_prob_norm, matched positions against exact nearest points (planar) / the spherical nearest point (lat/lon). "
+            "Exploration.",
+            "trusted: hmmref.py, geom2d.py, geomsph.py; lat/lon cut-off comparisons use the package's own distance",
+            "DESIGN.md §2 C05"),
+    "C06": ("property-based testing (Hypothesis), differential oracle (non_emitting_states off vs on)",
+            "First-order, unpruned configurations of all families are run with and without non-emitting states on generated "
+            "cases, half of them built so that non-emitting states are needed: the matched prefix must not shrink and the best "
+            "probability of complete matches must not drop. Exploration.",
+            "trusted: nothing beyond the package's public results; 1e-9 slack",
+            "DESIGN.md §2 C06"),
+    "C07": ("property-based testing (Hypothesis), per-column snapshot invariant through the public tqdm= callable + differential "
+            "against the unpruned run + monotonicity over widening histories",
+            "At the moment a column is about to be expanded the expanded candidates must be a top-k prefix (k within [min(W,n), "
+            "W + ties]); a pruned / widened run is compared with a fresh unpruned run (prefix, probability, equality at full "
+            "width) and widening must be monotone. Exploration.",
+            "trusted: snapshot taken by our own iterator wrapper passed as tqdm=; open finding KF-C07-NE recognised by signature",
+            "DESIGN.md §2 C07"),
+    "C08": ("property-based testing (Hypothesis), differential oracle (incremental vs one-shot)",
+            "A trace cut at 1-4 generated points is matched incrementally with expand=True on one matcher and in one call on a "
+            "fresh matcher: index, best path (ties excepted) and probability must agree. Exploration.",
+            "trusted: nothing beyond public results; tie = probabilities equal to 1e-12",
+            "DESIGN.md §2 C08"),
+    "C09": ("model-based property testing of operation histories (Hypothesis, sequences as data), structural invariant over the "
+            "whole lattice after every step",
+            "Generated sequences of match / extend / widen / rematch / continue_with_distance with arbitrary arguments; after "
+            "each applied operation every lattice entry is checked: filed where it claims, predecessor present in the directly "
+            "preceding layer, monotone probability, correct length, probability <= 1, no live entry with a stopped predecessor. "
+            "Exploration.",
+            "trusted: reads matcher.lattice (public attribute); preconditions of the operations as documented",
+            "DESIGN.md §2 C09"),
+    "C10": ("property-based testing (Hypothesis) with a pool of worker processes under different PYTHONHASHSEED values "
+            "(differential across processes) + metamorphic permutation of listing order",
+            "Each generated case is matched by 5 persistent workers with different hash seeds and the canonical results must be "
+            "identical (strict); in-process the node and neighbour order is permuted and index / probability must not change. "
+            "Exploration.",
+            "trusted: subprocess plumbing; hash seeds are fixed values plus one derived from VERIF_SEED",
+            "DESIGN.md §2 C10"),
     "C11": ("property-based testing (Hypothesis), oracle = exhaustive scan of the generating model with independent geometry "
             "(exact rational in the plane, unit-vector spherical for lat/lon)",
             "Generated contents on both backends, three coordinate magnitudes (unit, projected metres ~5e6, degrees) and queries "
